@@ -59,6 +59,22 @@ func (p *pg) genErr(profile string) (Config, Plan) {
 				}
 				plan.Ops = append(plan.Ops[:j], append([]OpSpec{{Kind: "clearfaults"}}, plan.Ops[j:]...)...)
 			}
+			// aftermath pattern: failed op, exactly one more acknowledged write, clean
+			// restart. In-memory state left dirty by the failed call (offsets, rolling
+			// CRC, buffers) typically poisons only the NEXT write and shows only when
+			// recovery re-reads the file; further writes would mask it.
+			if !op.Fault.Persistent && p.r.Intn(3) == 0 {
+				after := []OpSpec{p.appendOp(), {Kind: "reopen"}}
+				if p.r.Intn(4) == 0 {
+					second := p.appendOp()
+					if k := p.r.Intn(3); k > 0 {
+						second = p.deleteOp([]string{"", "deltail", "delhead"}[k])
+					}
+					after = []OpSpec{p.appendOp(), second, {Kind: "reopen"}}
+				}
+				plan.Ops = append(plan.Ops[:i+1], append(after, plan.Ops[i+1:]...)...)
+				break
+			}
 			// pairs of failures in consecutive ops
 			if p.r.Intn(4) == 0 && i+1 < len(plan.Ops) && plan.Ops[i+1].Fault == nil && plan.Ops[i+1].Kind != "clearfaults" {
 				plan.Ops[i+1].Fault = p.errFault()
